@@ -158,6 +158,50 @@ def ref_eval(t, vals, nz_leaf, nz_build):
     return res
 
 
+def ieee_eval(t, vals, nz_leaf, nz_build):
+    """Second reading for inputs whose *intermediate* results overflow: only the final result has to be finite
+    (x / inf == 0 is a finite result).  Missing inputs and zero divisors still propagate."""
+    nan = math.nan
+
+    def ev(t, nzb):
+        k = t[0]
+        if k == "leaf":
+            v = vals[t[1]]
+            if is_missing(v):
+                return 0.0 if (nz_leaf.get(t[1], False) or nzb) else nan
+            return float(v)
+        if k == "const":
+            return float(t[1])
+        if k == "built":
+            v = ev(t[1], t[2])
+            if math.isnan(v) or math.isinf(v):
+                return 0.0 if nzb else nan
+            return v
+        if k == "un":
+            x = ev(t[2], nzb)
+            if math.isnan(x):
+                return nan
+            return max(x, 0.0) if t[1] == "consumption" else max(-x, 0.0)
+        l, r = ev(t[2], nzb), ev(t[3], nzb)
+        if math.isnan(l) or math.isnan(r):
+            return nan
+        op = t[1]
+        if op == "+":
+            return l + r
+        if op == "-":
+            return l - r
+        if op == "*":
+            return l * r
+        if op == "/":
+            if r == 0:
+                return nan
+            return l / r
+        return max(l, r) if op == "max" else min(l, r)
+
+    res = ev(t, nz_build)
+    return None if (math.isnan(res) or math.isinf(res)) else res
+
+
 def has_undefined(t, vals, nz_leaf, nz_build):
     """True when some division in the tree has a zero (or missing) divisor for these inputs."""
     if t[0] == "bin":
